@@ -470,3 +470,10 @@ def x12(cx: Cx, ob: Ob) -> None:
     from ..rules import package_lints
 
     package_lints(cx, ob, {'api.py'})
+
+
+@obligation("C04-X24", "the JSON-LD loader hands the strict constructor exactly the context's terms (shared with C13-D5): keyword entries such as @vocab / @base are not turned into records - a record invented from a keyword makes a clash-free context raise DuplicateURIPrefixes", floor=2)
+def x24(cx: Cx, ob: Ob) -> None:
+    from .c13 import check_jsonld_reader
+
+    check_jsonld_reader(cx, ob)
